@@ -726,8 +726,7 @@ def emit_fn(spec, impl_item, linemap_cb):
                 z += 1
         if kind == 'T12' and len(hits) != 1:
             raise AnchorLost('T12: expression `%s` occurs %d times in fn %s' % (pat[:60], len(hits), spec.name))
-        if kind == 'T13' and len(hits) < 1:
-            raise AnchorLost('T13: path `%s` does not occur in fn %s' % (pat, spec.name))
+        # T13 is a call-site fix-up, not an anchor of a specification: a path that no longer occurs needs no renaming
         for z in hits:
             bed.replace(toks[z][2], toks[z + len(ptoks) - 1][3], repl)
             replaced_tok.update(range(z, z + len(ptoks)))
